@@ -149,7 +149,7 @@ def check_one(it, crys, chem, sl, ch, lam, phi, rho, data, dip, ncomp):
         fails.append(('sumrule', {'err': float(abs(Lsum - cov).max()),
                                   'holds_with_package_populated_dipoles': bool(abs(Lsum - cov2).max() <= TOL * tscale),
                                   'population_err': float(abs(pkgP - refP).max())}))
-    return fails, ncoupled, len(lamL)
+    return fails, ncoupled, ','.join('{:.4f}'.format(r / lmax) for r, L in sorted(lamL, key=lambda x: x[0]))
 
 
 def evaluate(case):
@@ -179,10 +179,10 @@ def evaluate(case):
             try:
                 fails, ncoupled, nrep = check_one(it, crys, chem, sl, ch, lam, phi, rho, data, dip, ncomp)
             except Exception as e:
-                fails, ncoupled, nrep = [('exception', '{}: {}'.format(type(e).__name__, e))], 0, -1
+                fails, ncoupled, nrep = [('exception', '{}: {}'.format(type(e).__name__, e))], 0, 'exc'
             ncmp += 4
             if ncoupled > 0: nontriv += 1
-            if len(outcomes) < 300: outcomes.add('{}:modes{}:coupled{}'.format(name, nrep, ncoupled))
+            if len(outcomes) < 300: outcomes.add('{}:rates[{}]:coupled{}'.format(name, nrep, ncoupled))
             for orc, det in fails:
                 if orc in seen: continue        # one violation per oracle and case: the first (simplest) input
                 seen.add(orc)
